@@ -130,7 +130,10 @@ func c19Worker(args []string) error {
 			fmt.Sscanf(string(b), "HTTP/1.1 %d", &status)
 		} else {
 			req, _ := http.NewRequest(method, url, bytes.NewReader(payload))
-			req.Header.Set("Content-Type", "application/json")
+			// the media type is not part of what makes a document well-formed: parameters, letter case, none at all
+			if ct := []string{"application/json", "application/json", "application/json; charset=utf-8", "application/json;charset=UTF-8", "Application/JSON", "", "text/plain"}[rng.Intn(7)]; ct != "" {
+				req.Header.Set("Content-Type", ct)
+			}
 
 			resp, err := (&http.Client{Timeout: 3 * time.Second}).Do(req)
 			if err != nil {
